@@ -251,6 +251,28 @@ def rep_grammars():
                 for mx in range(0, 5):
                     rules.append(rule(f"mm_{skip}_{mn}_{mx}", ("rep", skip, mn, mx, el)))
         gs.append(dict(gid=f"rep_{ek}", rules=rules, skipped=WS_SKIP))
+    # bounded repetition of elements that can match WITHOUT consuming (optional, nested repetition with MIN 0,
+    # stack operations): greedy up to MAX even at end of input; only bounded forms (an unbounded one would not terminate)
+    nullable = {
+        "o": ("opt", S("a")),
+        "z": ("rep", "0", 0, 2, S("a")),
+        "e": ("choice", [S("ab"), ("empty",)]),
+    }
+    for ek, el in nullable.items():
+        rules = [ws_rule()]
+        for skip in ("0", "1"):
+            for mn in range(0, 5):
+                for mx in range(0, 5):
+                    rules.append(rule(f"mm_{skip}_{mn}_{mx}", ("rep", skip, mn, mx, el)))
+                    rules.append(rule(f"mt_{skip}_{mn}_{mx}", ("seq", skip, [("rep", skip, mn, mx, el), S("b")])))
+        gs.append(dict(gid=f"rep_null_{ek}", rules=rules, skipped=WS_SKIP))
+    rules = [ws_rule()]
+    P2 = [("push", ("choice", [S("a"), S("b")])), ("push", ("choice", [S("b"), S("a")]))]
+    for mn in range(0, 4):
+        for mx in range(0, 4):
+            rules.append(rule(f"dr_{mn}_{mx}", ("seq", "0", P2 + [("rep", "0", mn, mx, ("drop",)), ("peekall",)])))
+            rules.append(rule(f"pk_{mn}_{mx}", ("seq", "1", [("push", ("opt", S("a")))] + [("rep", "1", mn, mx, ("peek",)), ("opt", S("b"))])))
+    gs.append(dict(gid="rep_stackops", rules=rules, skipped=WS_SKIP))
     # arrays, pairs, optionals, skip-n-chars, skip-repeat
     rules = [ws_rule()]
     for k in range(0, 4):
